@@ -180,6 +180,25 @@ Theorem C03_sound : forall v q d a s,
 Proof. exact c03_sound. Qed.
 Print Assumptions C03_sound.
 
+(* the same with cap_ok (int(capacity) and floor(capacity) accept the same positive amounts) in place of caps_nonneg -
+   implied by it, and by non-negative usage: caps_nonneg is not an invariant of the service (Props/C02.v:
+   C02_caps_nonneg_not_invariant), cap_ok is ... *)
+Theorem C03_sound_gen : forall v q d a s,
+  rps_wf d -> parentless_root d -> cap_ok d -> aggs_wf d -> un_rcs_nodup q ->
+  candidates v q d = COk a s ->
+  forall c, In c a -> exists c', In c' (map (creq_view v) (spec_candidates v q d)) /\ same_creq c c' = true.
+Proof. exact c03_sound_gen. Qed.
+Print Assumptions C03_sound_gen.
+
+(* ... so in every state reached by well-formed requests no hypothesis on the database is left (rps_wf and parentless_root
+   from the Forest invariant, cap_ok from positive allocations, aggs_wf from RI) *)
+Theorem C03_sound_reachable : forall cf l v q a s,
+  reqs_wf l -> un_rcs_nodup q ->
+  candidates v q (run cf db0 l) = COk a s ->
+  forall c, In c a -> exists c', In c' (map (creq_view v) (spec_candidates v q (run cf db0 l))) /\ same_creq c c' = true.
+Proof. exact c03_sound_reachable. Qed.
+Print Assumptions C03_sound_reachable.
+
 Theorem C03_reachable_aggs_wf : forall cf d, reachable cf d -> aggs_wf d.
 Proof. exact reachable_aggs_wf. Qed.
 Print Assumptions C03_reachable_aggs_wf.
